@@ -258,7 +258,8 @@ type pipeProfile struct {
 	failures  bool // scripted errors / unparseable output
 	extras    bool // pre-existing files
 	prev      bool // previous gengo.sum variants
-	locals    bool // function-local types and type parameters
+	locals    bool // function-local types and type parameters, blank declarations
+	nested    bool // sometimes a second module nested in the tree
 	maxPkgs   int
 	allChance int
 }
@@ -302,6 +303,15 @@ func genScenario(r *Rng, pf pipeProfile) PScn {
 				p.Types = append(p.Types, t)
 			}
 		}
+		if pf.locals && r.Chance(25) {
+			// blank declarations with enabling tags: two types and two constants named `_`
+			t := PType{Name: "_", Kind: "b", Tags: Pick(r, pipeTagMenu)}
+			if r.Bool() {
+				p.Types = append([]PType{t}, p.Types...)
+			} else {
+				p.Types = append(p.Types, t)
+			}
+		}
 		if pf.extras {
 			for _, e := range []string{pipeBase + ".old.go", pipeBase + "x.go", pipeBase + ".rec.go", pipeBase + "_test.go", pipeBase + ".recx.go", "notes.txt", pipeBase + ".txt", "extra.go"} {
 				if r.Chance(35) {
@@ -327,6 +337,7 @@ func genScenario(r *Rng, pf pipeProfile) PScn {
 	}
 	s.All = r.Chance(pf.allChance)
 	s.Force = r.Chance(15)
+	s.Nested = pf.nested && r.Chance(30)
 	// reactions
 	for _, p := range s.Pkgs {
 		for _, t := range p.Types {
@@ -380,12 +391,12 @@ const pipeRuleCommon = "synthetic modules of 1–4 packages (directories and typ
 func init() {
 	register(&Property{ID: "C06", Streams: []*Stream{
 		pipeStream("dispatch", 240, 2400, "calls", pipeProfile{locals: true, maxPkgs: 3, allChance: 50},
-			pipeRuleCommon+"plus function-local types and type parameters sharing names with package-level types; compared with the model: result, files, sum, call log in order, rendered text; oracle: call log and rendered text prescribed by the statement (sorted enabled package-level defined types, aliases to the alias hook, callbacks once each after the calls); non-trivial = at least one call was made", nil),
+			pipeRuleCommon+"plus function-local types and type parameters sharing names with package-level types, and blank (`_`) type and constant declarations carrying enabling tags; compared with the model: result, files, sum, call log in order, rendered text; oracle: call log and rendered text prescribed by the statement (sorted enabled package-level defined types, aliases to the alias hook, callbacks once each after the calls); non-trivial = at least one call was made", nil),
 		pipeStream("dispatch-failing", 60, 600, "calls errors", pipeProfile{locals: false, failures: true, maxPkgs: 3, allChance: 50},
 			pipeRuleCommon+"with scripted generator errors, failing deferred callbacks and unparseable output", nil),
 	}})
 	register(&Property{ID: "C07", Streams: []*Stream{
-		pipeStream("files", 300, 3000, "files other sum", pipeProfile{extras: true, prev: true, failures: true, maxPkgs: 4, allChance: 60},
-			pipeRuleCommon+"pre-existing user files, look-alikes (zz_generatedx.go, zz_generated_test.go, zz_generated.txt), stale outputs, own old outputs, All on/off, previous gengo.sum none/corrupt/correct/stale/missing; oracle: the whole module tree hashed before and after — only <base>.* files of processed packages and gengo.sum under All may differ, a generator's file exists iff it rendered something (ErrIgnore with nothing rendered keeps the previous file), stale outputs are removed", nil),
+		pipeStream("files", 300, 3000, "files other sum", pipeProfile{extras: true, prev: true, failures: true, nested: true, maxPkgs: 4, allChance: 60},
+			pipeRuleCommon+"in a third of the scenarios a second module nested in the tree whose path extends the main module's (own go.mod, replace directive, imported by the first package, holding a tagged type and a <base>.other.go of its own); pre-existing user files, look-alikes (zz_generatedx.go, zz_generated_test.go, zz_generated.txt), stale outputs, own old outputs, All on/off, previous gengo.sum none/corrupt/correct/stale/missing; oracle: the whole module tree hashed before and after — only <base>.* files of processed packages and gengo.sum under All may differ, a generator's file exists iff it rendered something (ErrIgnore with nothing rendered keeps the previous file), stale outputs are removed", nil),
 	}})
 }
